@@ -316,7 +316,7 @@ def c07_arm_matrix(tier, mi):
 
 
 def check_c07(tier):
-    runs = times_runs(tier, [0, 1, 2], 8, 10) + times_runs(tier, [1], 6, 8, threads=True)
+    runs = times_runs(tier, [0, 1, 2], 8, 9) + times_runs(tier, [1], 6, 8, threads=True)
     return times_family("C07", tier, runs,
                         ["a mismatch with the reference model is attributed to C07 when it occurs in a lifetime that follows earlier use of the same fake! source line, to C06 when it occurs in the first lifetime of a fresh process"],
                         extra=c07_arm_matrix)
@@ -634,11 +634,36 @@ E2_ASSUME = [
 ]
 
 
+def e2_free_run(tier):
+    """Free-running cross-check: the same thread bodies on plain OS threads (real scheduler), and, in the
+    thorough tier, once under helgrind.  Its oracles are the exhaustive run's; helgrind output is informational."""
+    iters = 100 if tier == "quick" else 3000
+    r = subprocess.run([bin_path("e2"), "free", str(iters)], capture_output=True, text=True, cwd=WORK, env=env_offline(), timeout=1200)
+    info = {"iterations": iters}
+    viols = []
+    if r.returncode != 0:
+        viols.append({"key": f"free-run-process-died-{r.returncode}", "what": f"the free-running cross-check died with status {r.returncode}: {r.stderr[-300:]}", "engine": "e2", "args": ["free"], "case": {"iterations": iters}})
+        return viols, info
+    o = json.loads(r.stdout.strip().splitlines()[-1])
+    info["runs"] = o["runs"]
+    for v in o["violations"]:
+        viols.append({"key": "free-run:" + v["key"], "what": v["what"], "engine": "e2", "args": ["free"], "case": {"iteration": v["iteration"]}})
+    if tier == "thorough" and subprocess.run(["which", "valgrind"], capture_output=True).returncode == 0:
+        h = subprocess.run(["valgrind", "--tool=helgrind", "--smc-check=all", "-q", bin_path("e2"), "free", "3"], capture_output=True, text=True, cwd=WORK, env=env_offline(), timeout=1200)
+        blocks = [b for b in h.stderr.split("\n==") if "Possible data race" in b]
+        # std's futex mutex and atomics are invisible to helgrind: reports whose stacks stay inside them are noise
+        outside = [b for b in blocks if not any(w in b for w in ("futex", "sync::poison", "sys::sync", "atomic", "LOCK_FUNCTION"))]
+        info["helgrind"] = {"possible_data_race_reports": len(blocks), "outside_std_sync_and_atomics": len(outside), "first_outside": outside[0][:400] if outside else None}
+    return viols, info
+
+
 def check_c04(tier):
     t0 = time.time()
     mi = mount()
     tot, raw, samples, cases = e2_run("c04", tier)
     viols = e2_viols(raw, "c04")
+    fv, finfo = e2_free_run(tier)
+    viols += fv
     if tot["blocked_lock_schedules"] == 0 or tot["distinct_outcomes_max"] < 2:
         if not viols:
             raise MachineryError("vacuous exploration: no schedule contained a blocked lock() / fewer than two distinct outcomes")
@@ -649,6 +674,7 @@ def check_c04(tier):
         "bound": {"threads": "2 (all guard-kind x exit-path assignments, every schedule) and 3 (preemption bound as listed per scenario); 2 threads x 2 rounds", "preemptions_max_used": tot["max_preemptions"], "capped_scenarios": tot["capped_cases"]},
         "schedules_with_a_blocked_lock": tot["blocked_lock_schedules"],
         "distinct_outcomes": tot["distinct_outcomes_max"],
+        "free_running_crosscheck": finfo,
         "exhaustive": tot["capped_cases"] == 0,
         "explanation": "every schedule is an execution of the real crate code on real OS threads under the controlled scheduler (no model of the crate); states = distinct (step, enabled set, choice) fingerprints, transitions = scheduling steps; traces_validated_against_impl = schedules executed (each one is an implementation run)",
     }
